@@ -7,6 +7,7 @@ CONSTANTS
   MaxDeviate = 2
   KLMs = {123, 231, 312, 321}
   FactorKindsC14 = {}
+  Warm = {"none"}
 INIT Init
 NEXT Next
 CHECK_DEADLOCK FALSE
